@@ -20,6 +20,24 @@
 // are the command lines "", "  " and "  cat".  Config.NewlineOutput is set
 // from cfg.nlmode ("raw", "crlf", "smart" / absent = the default).
 //
+// "nd/g1" is a file name in a directory (nd) that does not exist.  In the
+// spelling "jailed" (custom OpenFile only) the program writes names relative to
+// the work directory under a per-case unique first component ("nd.<id>/g1") and
+// the OpenFile wrapper resolves relative names in the work directory, as
+// os.Root.OpenFile would: whatever the interpreter does to the name without going
+// through OpenFile lands in the process's working directory, which is looked at
+// after the run.  Before and after each run the tree under the work directory is
+// listed; the entries that came into being are compared with Prediction.created.
+//
+// A print action of form "implied" is the implied print of a rule with a pattern
+// and no action.  A history that has one is rendered as a MAIN LOOP: the input
+// is one record per action (the payload letter of that action), the k-th action
+// is the rule `NR == k` (implied print of the record) or `NR == k { statement }`.
+//
+// Payload shape "block" is one string of N copies of the letter (native function
+// blk); N is RunOpts.Block; in predictions it is the symbol 1000 + letter, which
+// Expand replaces by the N bytes.
+//
 // A SESSION (fam "session") is a sequence of such runs on ONE interp.Interpreter
 // (interp.New once, Execute per run), each Execute with the Config of its own
 // run: own flags, own OpenFile wrapper (or none), own output writers; the work
@@ -102,6 +120,7 @@ type Pred struct {
 	Opens     []Open            `json:"opens"`
 	Starts    []string          `json:"starts"`
 	Files     map[string]FileSt `json:"files"`
+	Created   *[]string         `json:"created"` // nil: not predicted (cases exported by an older model)
 	Stdout    struct {
 		Prog hx.BS `json:"prog"`
 		Kids []Kid `json:"kids"`
@@ -118,6 +137,8 @@ type Case struct {
 	Cfg  Cfg    `json:"cfg"`
 	Acts []Act  `json:"acts"`
 	Pred Pred   `json:"pred"`
+	// Block is the number of bytes a block symbol of the prediction has been expanded to (0: none)
+	Block int `json:"-"`
 	// SigClass, when set, replaces the flag class in failure signatures (runs of a session)
 	SigClass string `json:"-"`
 }
@@ -197,6 +218,10 @@ func denoted(name, dir string) string {
 	if filepath.Dir(abs) == dir {
 		return filepath.Base(abs)
 	}
+	if d := filepath.Dir(abs); filepath.Dir(d) == dir && strings.HasPrefix(filepath.Base(d), "nd") {
+		// an entry of the directory that does not exist ("nd", or "nd.<id>" in the jailed spelling)
+		return "nd/" + filepath.Base(abs)
+	}
 	if abs == "/dev/null" {
 		return abs
 	}
@@ -222,6 +247,14 @@ func nameExpr(n, cls, dir, ctl string) string {
 			return `("/dev/.." D "/` + n + `")`
 		case "dotdot":
 			return `(D "/../` + filepath.Base(dir) + `/` + n + `")`
+		}
+		return hx.AwkString([]byte(spelled(dir, n, cls)))
+	case "nd/g1":
+		switch cls {
+		case "computed":
+			return `(D "/n" "d/g" 1)`
+		case "jailed":
+			return `(J "/g" 1)`
 		}
 		return hx.AwkString([]byte(spelled(dir, n, cls)))
 	case "/dev/null":
@@ -301,15 +334,24 @@ func renderBody(sb *strings.Builder, acts []Act, dir, ctl string, marks bool, in
 				pay += `\n` + up + `\n`
 			case "crlf":
 				pay += `\r\n` + up
+			case "block":
 			default:
 				return nil, false, false
 			}
-			stmt := `print "` + pay + `"`
+			arg := `"` + pay + `"`
+			if a.Shape == "block" {
+				arg = `blk("` + pay + `")`
+			}
+			stmt := `print ` + arg
 			switch a.Form {
+			case "", "print":
 			case "printf":
-				stmt = `printf "%s", "` + pay + `"`
+				stmt = `printf "%s", ` + arg
 			case "print2":
-				stmt = `print "` + pay + `", "` + pay + `"`
+				stmt = `print ` + arg + `, ` + arg
+			default:
+				// "implied" has no statement: see RenderLoop
+				return nil, false, false
 			}
 			switch a.Dest {
 			case "stdout":
@@ -395,8 +437,66 @@ func renderBody(sb *strings.Builder, acts []Act, dir, ctl string, marks bool, in
 	return args, mainRule, true
 }
 
+// HasImplied: does the history contain the implied print of a rule without an action?
+func HasImplied(acts []Act) bool {
+	for _, a := range acts {
+		if a.Op == "print" && a.Form == "implied" {
+			return true
+		}
+	}
+	return false
+}
+
+// LoopInput is the input that drives a main-loop rendering: one record per action, the payload letter of that action.
+func LoopInput(acts []Act) []byte {
+	var b []byte
+	for i := range acts {
+		b = append(b, byte(96+i+1), '\n')
+	}
+	return b
+}
+
+// RenderLoop renders a history as a main loop over LoopInput: action k is executed when record k is read; an
+// implied print is a rule with a pattern and no action.  Only actions that do not touch the standard input.
+func RenderLoop(acts []Act, dir, ctl string, marks bool) (prog string, ok bool) {
+	var sb strings.Builder
+	for i, a := range acts {
+		switch a.Op {
+		case "getline_file", "getline_cmd", "system", "operand":
+			return "", false
+		case "finish":
+			continue
+		}
+		if a.Op == "print" && a.Form == "implied" {
+			if a.Dest != "stdout" || (a.Shape != "" && a.Shape != "plain") {
+				return "", false
+			}
+			fmt.Fprintf(&sb, "NR == %d\n", i+1)
+			if marks {
+				fmt.Fprintf(&sb, "NR == %d { mark(%d) }\n", i+1, i+1)
+			}
+			continue
+		}
+		var body strings.Builder
+		one := make([]Act, i+1) // renderBody derives the payload from the position
+		for j := range one {
+			one[j] = Act{Op: "finish"}
+		}
+		one[i] = a
+		if _, _, ok := renderBody(&body, one, dir, ctl, marks, "  "); !ok {
+			return "", false
+		}
+		fmt.Fprintf(&sb, "NR == %d {\n%s}\n", i+1, body.String())
+	}
+	return sb.String(), true
+}
+
 // Render builds the program for a history; marks adds mark(i) after action i.
 func Render(acts []Act, dir, ctl string, marks bool) (prog string, args []string, ok bool) {
+	if HasImplied(acts) {
+		prog, ok = RenderLoop(acts, dir, ctl, marks)
+		return prog, nil, ok
+	}
 	var sb strings.Builder
 	sb.WriteString("BEGIN {\n")
 	args, mainRule, ok := renderBody(&sb, acts, dir, ctl, marks, "  ")
@@ -506,6 +606,7 @@ type Obs struct {
 	Starts   []string
 	Files    map[string]FileSt
 	Extra    []string // unexpected directory entries
+	Created  []string // entries that came into being during the run: under the work directory (model names), "cwd:<name>" in the process's working directory
 	Notes    []Note
 	Marks    []MarkPos
 	FailMark int  // see FailWriter (-1: no write failed, or no failing writer)
@@ -562,6 +663,7 @@ func openClass(flag int) string {
 
 type RunOpts struct {
 	Marks bool
+	Block int // the number of bytes of a payload of shape "block"
 	WKind string // when set (and the writer never fails): Config.Output of this kind instead of the configured one
 }
 
@@ -612,6 +714,12 @@ func RunSession(runs []RunIn, o RunOpts) ([]*Obs, string) {
 	if !ok {
 		return nil, ""
 	}
+	jail := fmt.Sprintf("nd.%d", id) // first component of the names of the "jailed" spelling
+	defer os.RemoveAll(filepath.Join(cwd(), jail))
+	block := o.Block
+	if block <= 0 {
+		block = 1
+	}
 	all := make([]*Obs, len(runs))
 	for k := range all {
 		all[k] = &Obs{Files: map[string]FileSt{}, FailMark: -1}
@@ -627,6 +735,7 @@ func RunSession(runs []RunIn, o RunOpts) ([]*Obs, string) {
 			ob.Notes = append(ob.Notes, Note{K: k, V: int(v), S: hx.FromBytes([]byte(s))})
 			mu.Unlock()
 		},
+		"blk": func(s string) string { return strings.Repeat(s, block) },
 		"mark": func(i int) {
 			mu.Lock()
 			ob := all[cur]
@@ -692,10 +801,14 @@ func RunSession(runs []RunIn, o RunOpts) ([]*Obs, string) {
 			stdin = append(stdin, l.Bytes()...)
 			stdin = append(stdin, '\n')
 		}
+		if len(runs) == 1 && HasImplied(runs[k].Acts) {
+			stdin = LoopInput(runs[k].Acts)
+		}
+		before := listTree(dir)
 		out := &LockedBuf{}
 		errb := &LockedBuf{}
 		var fw *FailWriter
-		vars := []string{"D", dir, "C", ctl}
+		vars := []string{"D", dir, "C", ctl, "J", jail}
 		if len(runs) > 1 {
 			vars = append(vars, "RUN", fmt.Sprint(k+1))
 		}
@@ -739,6 +852,10 @@ func RunSession(runs []RunIn, o RunOpts) ([]*Obs, string) {
 		if rc.Custom {
 			me := k
 			cfg.OpenFile = func(name string, flag int, perm os.FileMode) (*os.File, error) {
+				if !filepath.IsAbs(name) && strings.HasPrefix(name, jail+"/") {
+					// the jail: names relative to its root are resolved in the work directory
+					name = filepath.Join(dir, name)
+				}
 				n := denoted(name, dir)
 				mu.Lock()
 				if cur == me {
@@ -820,12 +937,109 @@ func RunSession(runs []RunIn, o RunOpts) ([]*Obs, string) {
 			b, _ := os.ReadFile(filepath.Join(dir, e.Name()))
 			obs.Files[e.Name()] = FileSt{Ex: true, C: hx.FromBytes(b)}
 		}
+		for n := range listTree(dir) {
+			if !before[n] {
+				if strings.HasPrefix(n, jail) {
+					n = "nd" + n[len(jail):]
+				}
+				obs.Created = append(obs.Created, n)
+			}
+		}
+		if _, err := os.Lstat(filepath.Join(cwd(), jail)); err == nil {
+			obs.Created = append(obs.Created, "cwd:nd")
+			os.RemoveAll(filepath.Join(cwd(), jail))
+		}
+		sort.Strings(obs.Created)
 		if obs.Panic != nil || obs.Timeout {
 			// the Interpreter is in an unknown state: later runs of the session are not made
 			return all[:k+1], prog
 		}
 	}
 	return all, prog
+}
+
+// listTree lists the entries below dir (paths relative to dir).
+func listTree(dir string) map[string]bool {
+	m := map[string]bool{}
+	_ = filepath.Walk(dir, func(p string, _ os.FileInfo, err error) error {
+		if err == nil && p != dir {
+			if r, e := filepath.Rel(dir, p); e == nil {
+				m[r] = true
+			}
+		}
+		return nil
+	})
+	return m
+}
+
+// ---- block symbols ----
+
+const blockBase = 1000
+
+// HasBlock: does the history write a payload of shape "block"?
+func HasBlock(acts []Act) bool {
+	for _, a := range acts {
+		if a.Op == "print" && a.Shape == "block" {
+			return true
+		}
+	}
+	return false
+}
+
+func expandBS(b hx.BS, n int) hx.BS {
+	out := make(hx.BS, 0, len(b))
+	for _, v := range b {
+		if v >= blockBase {
+			for i := 0; i < n; i++ {
+				out = append(out, v-blockBase)
+			}
+		} else {
+			out = append(out, v)
+		}
+	}
+	return out
+}
+
+// offset maps a position in a symbol sequence (a count of symbols) to the position in its expansion.
+func expandOffset(b hx.BS, k, n int) int {
+	if k < 0 {
+		return k
+	}
+	pos := 0
+	for i := 0; i < k && i < len(b); i++ {
+		if b[i] >= blockBase {
+			pos += n
+		} else {
+			pos++
+		}
+	}
+	return pos
+}
+
+// Expand returns the case with every block symbol of its prediction replaced by n copies of its byte.
+func Expand(c *Case, n int) *Case {
+	d := *c
+	d.Block = n
+	p := c.Pred
+	q := p
+	q.Files = map[string]FileSt{}
+	for k, f := range p.Files {
+		q.Files[k] = FileSt{Ex: f.Ex, C: expandBS(f.C, n)}
+	}
+	q.Stdout.Prog = expandBS(p.Stdout.Prog, n)
+	q.Stdout.Kids = nil
+	for _, k := range p.Stdout.Kids {
+		q.Stdout.Kids = append(q.Stdout.Kids, Kid{Out: expandBS(k.Out, n), Lo: expandOffset(p.Stdout.Prog, k.Lo, n),
+			Hi: expandOffset(p.Stdout.Prog, k.Hi, n), Sys: k.Sys})
+	}
+	q.Serr = expandBS(p.Serr, n)
+	q.Notes = nil
+	for _, x := range p.Notes {
+		x.S = expandBS(x.S, n)
+		q.Notes = append(q.Notes, x)
+	}
+	d.Pred = q
+	return &d
 }
 
 // ---- the stdout predicate (transcription of IOStreams!IsAllowedStdout) ----
@@ -837,6 +1051,9 @@ func AllowedStdout(s []byte, prog []byte, kids []Kid) bool {
 	}
 	if total != len(s) {
 		return false
+	}
+	if len(kids) == 0 {
+		return bytes.Equal(s, prog)
 	}
 	memo := map[string]bool{}
 	cs := make([]int, len(kids))
